@@ -56,6 +56,7 @@ package crypto
 //@ func GenerateDLEQ
 //@   tags C10
 //@   safety C06 C10
+//@   loop 1 invariant r == nil || r != a
 //@   ensures @nonnil [C10] r0 != nil && r1 != nil
 //@   ensures @proof [C10] exists p Sc :: sc.of(r0.Key) == sc.frombytes(hashe4(smul(p, pt.G), smul(p, pk.pt(*B_)), smul(sc.of(a.Key), pt.G), pk.pt(*C_))) && sc.of(r1.Key) == sadd(p, smulS(sc.of(r0.Key), sc.of(a.Key)))
 
